@@ -222,7 +222,21 @@ func (h *handler) Handle(ctx context.Context) {
 		}
 	}
 
-	wg.Wait()
+	// The receiving goroutine may be blocked handing a message over to the
+	// scheduler, whose queue nobody consumes anymore: keep the queue draining
+	// until both goroutines are gone.
+	done := make(chan struct{})
+	go func() {
+		wg.Wait()
+		close(done)
+	}()
+	for {
+		select {
+		case <-h.consumer.Messages():
+		case <-done:
+			return
+		}
+	}
 }
 
 func (h *handler) send(protoMsg hwebsocket.ProtoMsg) {
